@@ -670,6 +670,12 @@ class Optimizer(object):
 
         # q-ACQ multi point acquisition for centralized setting
         if len(self.models) > 0 and strategy.startswith("qLCB"):
+            # The first point is the minimizer of the acquisition function computed by
+            # the last `tell`. As any point returned by `ask` it is recorded in `sampled`,
+            # before the candidates of the other points are filtered.
+            X = [self._next_x]
+            self.sampled.append(self._next_x)
+
             Xsample = self.space.rvs(
                 n_samples=self.n_points, random_state=self.rng, n_jobs=self.n_jobs
             )
@@ -685,11 +691,16 @@ class Optimizer(object):
             kappa = self.acq_func_kwargs.get("kappa", 1.96)
             kappas = self.rng.exponential(kappa, size=n_points - 1)
 
-            X = [self._next_x]
+            # a candidate is selected for one kappa only (while some are left)
+            available = np.ones(len(Xsample), dtype=bool)
             for kappa in kappas:
                 values = mu - kappa * std
+                if np.any(available):
+                    values = np.where(available, values, np.inf)
                 idx = np.argmin(values)
+                available[idx] = False
                 X.append(Xsample[idx])
+                self.sampled.append(Xsample[idx])
 
             return X
 
